@@ -184,7 +184,11 @@ func evalAsc(c *Ctx, k caseT, out string) {
 	} else {
 		data = Unhx(strings.Fields(k.line)[2])
 	}
-	r := implAsc(data)
+	gr, ok := guard(c, k, "asc-decode", func() interface{} { return implAsc(data) })
+	if !ok {
+		return
+	}
+	r := gr.(implAudio)
 	modelOutcome := "ok"
 	if e, bad := m["err"]; bad {
 		modelOutcome = "err=" + e
@@ -206,6 +210,8 @@ func evalAsc(c *Ctx, k caseT, out string) {
 	meta := "none"
 	if r.ready {
 		meta = fmt.Sprintf("%d,%d", r.channels, r.rate)
+	} else if r.channels != 0 || r.rate != 0 {
+		meta = fmt.Sprintf("not-ready-but-stored:%d,%d", r.channels, r.rate) // nothing may be stored when Decode fails
 	}
 	wantMeta := m["meta"]
 	if modelOutcome != "ok" {
@@ -214,6 +220,7 @@ func evalAsc(c *Ctx, k caseT, out string) {
 	if meta != wantMeta {
 		c.Find(Finding{Kind: "corr", Class: "asc-metadata-ready", Case: k.line, Impl: meta, Model: out})
 	}
+	sdpCaseOf(c, k, "aac", data, m["spec"], derive)
 	if k.kind == "ascenc" && k.wf {
 		c.Count("asc:class-" + k.class)
 		if meta != m["spec"] {
